@@ -121,7 +121,7 @@ CHECKS = {
         engine=E1, design='DESIGN.md section 4 / C08',
         technique='full enumeration of model histories x operation positions (listener add/remove, wait requests, close '
                   'requests, ack-vs-event order) on the real TorState, listener call log compared with a reference expansion',
-        text='Every maximal history (<= 9 events quick / 11 thorough; 1129 / ~1900 histories) of one circuit and one stream from '
+        text='Every maximal history (<= 8 events quick / 11 thorough) of one circuit and one stream from '
              'the life-cycle model, crossed with: a global listener added before every position and removed before every later '
              'position (call log must equal the reference expansion of exactly the events in between, flags under upper- and '
              'lower-case keys); when_built()/when_closed() requested at every pair of positions; Circuit.close()/Stream.close() '
@@ -130,6 +130,19 @@ CHECKS = {
              'and at the end (everything completes exactly once).',
         note='Trusted: refs/tormodel.py, the reference expansion in props/c08.py. NEWRESOLVE streams and requests on objects '
              'Tor no longer has are outside the alphabet.'),
+    'C09': dict(
+        engine=E1, design='DESIGN.md section 4 / C09',
+        technique='full product of stream kinds x attacher answers x delivery modes, all PriorityAttacher configurations, and '
+                  'all interleavings of two concurrent via-circuit connection chains with an unrelated stream, on the real '
+                  'TorState / TorCircuitEndpoint / SOCKS client with SimTor acknowledging promptly',
+        text='Part A: 7 stream kinds (1 and 2 streams) x 10 attacher answers (BUILT circuit, circuit in LAUNCHED/EXTENDED/FAILED/'
+             'CLOSED, unknown circuit, non-circuit, None, DO_NOT_ATTACH, raising) x {immediate, Deferred fired later, coroutine}; '
+             'set_attacher bookkeeping; every PriorityAttacher configuration of <= 3 sub-attachers x 3 priorities x 4 answers '
+             'with every single removal (~5k). Part B: every merge of the causal chains of two concurrent '
+             'Circuit.stream_via().connect() calls (TCP established, method reply, STREAM NEW with that source port, SOCKS '
+             'success) and an unrelated STREAM NEW - 630 orders - in 4 variants (plain, same target host, second circuit still '
+             'building, first circuit closing). Oracle on the ATTACHSTREAM/SETCONF lines and the connect() outcomes.',
+        note='Trusted: mc/simtor.py, refs/socks5.py, the lazy SOCKS endpoint double. Tor reports addresses in lower case.'),
 }
 
 PENDING = {}
